@@ -342,6 +342,7 @@ Definition op_wf (o : op) : bool :=
   | OServerHeaders id _ L _ => (1 <=? id) && (id <=? max_i32) && (0 <=? L)
   | OData id h d _ => (1 <=? id) && (id <=? max_i32) && (0 <=? h) && (0 <=? d)
   | OCleanup id _ => (1 <=? id) && (id <=? max_i32)
+  | OEarlyAbort id L _ => (1 <=? id) && (id <=? max_i32) && (0 <=? L)
   | _ => true
   end.
 
@@ -365,7 +366,7 @@ Lemma handle_inv s g o s' r :
   exists g' cl, l_frames (l_op g o (code r) (frames r)) (frames r) = (g', cl) /\ ok2 cl = true /\ Inv s' g'.
 Proof.
   intros Hwf HI H. pose proof HI as (Hsq & Ho & Hor & HR).
-  destruct o as [id inc|v order|sid v|id|id L ie|id es L rst|id h d es|id rst| |a| | |lasts]; cbn [handle] in H.
+  destruct o as [id inc|v order|sid v|id|id L ie|id es L rst|id h d es|id rst| |a| | |lasts|id L rst]; cbn [handle] in H.
   - (* window update *)
     cbn [op_wf] in Hwf. split_wf Hwf.
     destruct (id =? 0) eqn:E0.
@@ -480,6 +481,17 @@ Proof.
   - (* API writes: no wire frames *)
     inversion H; subst; clear H. cbn [code frames ok_res l_op executed Z.eqb orb negb].
     rewrite l_frames_api. eexists _, []. auto.
+  - (* earlyAbortStream: only for unregistered streams, so the ledger is untouched *)
+    cbn [op_wf] in Hwf. split_wf Hwf.
+    destruct (aget id (estd s)) eqn:Eg.
+    { inversion H; subst; clear H. cbn. eexists _, []. auto. }
+    destruct (side s =? 0).
+    { inversion H; subst; clear H. cbn. eexists _, []. auto. }
+    pose proof (inv_l_del_irrel s g id HI Eg) as Hdel.
+    inversion H; subst; clear H. cbn [code frames ok_res l_op executed Z.eqb orb negb].
+    destruct (l_frames_writeHeader g id true L ltac:(lia)) as (cl & Hl & Hok).
+    rewrite l_frames_app, Hl, Hdel.
+    destruct rst; cbn; eexists _, _; (split; [reflexivity|]); rewrite app_nil_r; auto.
 Qed.
 
 Lemma init_inv sd : Inv (init sd) l_init.
@@ -852,7 +864,7 @@ Proof.
 Qed.
 
 Definition op_wf2 (o : op) : bool :=
-  op_wf o && match o with OServerHeaders _ true _ rst => negb rst | _ => true end.
+  op_wf o && match o with OServerHeaders _ true _ rst => negb rst | OEarlyAbort _ _ rst => negb rst | _ => true end.
 
 Fixpoint no_data_after_end (E : list Z) (ops : list op) : bool :=
   match ops with
@@ -1022,6 +1034,11 @@ Proof.
   congruence.
 Qed.
 
+Lemma adel_app_new {A} id (l : list (Z * A)) v : aget id l = None -> adel id (l ++ [(id, v)]) = l.
+Proof.
+  induction l as [|[k x] r IH]; cbn; [rewrite Z.eqb_refl; reflexivity|].
+  destruct (k =? id); [discriminate|]. intros H. rewrite IH; auto.
+Qed.
 Lemma b_frames_api l : forall st d, b_frames st (api_writes d l) = (st, []).
 Proof.
   induction l as [|x l IH]; intros st d; cbn [api_writes b_frames]; [reflexivity|].
@@ -1045,7 +1062,7 @@ Lemma handle_inv2 E s bl o s' r :
 Proof.
   intros Hwf2 Hfresh HI H. pose proof HI as [Hs HF].
   unfold op_wf2 in Hwf2. apply andb_true_iff in Hwf2 as [Hwf Hrst0].
-  destruct o as [id inc|v order|sid v|id|id L ie|id es L rst|id h d es|id rst| |a| | |lasts]; cbn [handle] in H;
+  destruct o as [id inc|v order|sid v|id|id L ie|id es L rst|id h d es|id rst| |a| | |lasts|id L rst]; cbn [handle] in H;
     cbn [E_next].
   - (* window update *)
     cbn [op_wf] in Hwf. split_wf Hwf.
@@ -1172,6 +1189,19 @@ Proof.
   - inversion H; subst; clear H. cbn. eexists _, _, []. fin2. exact HI.
   - inversion H; subst; clear H. cbn [code frames ok_res b_op executed Z.eqb orb negb].
     rewrite b_frames_api. eexists _, _, []. fin2. exact HI.
+  - cbn in Hrst0. apply negb_true_iff in Hrst0. subst rst.
+    destruct (aget id (estd s)) eqn:Eg.
+    { inversion H; subst; clear H. cbn. eexists _, _, []. fin2. exact HI. }
+    destruct (side s =? 0).
+    { inversion H; subst; clear H. cbn. eexists _, _, []. fin2. exact HI. }
+    inversion H; subst; clear H. cbn [code frames ok_res b_op executed Z.eqb orb negb]. rewrite app_nil_r.
+    assert (Hg : (match writeHeader id true L with [] => bl | _ => bl ++ [(id, b_new)] end) = bl ++ [(id, b_new)]).
+    { unfold writeHeader. replace (Z.to_nat (L / maxFrame) + 1)%nat with (S (Z.to_nat (L / maxFrame))) by lia.
+      cbn [hfrags]. destruct (L >? maxFrame); reflexivity. }
+    rewrite Hg. pose proof (f2_get_none _ _ _ _ HF Eg) as Hn.
+    destruct (b_frames_trailers (bl ++ [(id, b_new)]) [] id L b_new (aget_app_new id bl b_new Hn) eq_refl) as (cl & Hl & Hok).
+    rewrite adel_app_new in Hl by exact Hn.
+    eexists _, _, cl. split; [exact Hl|]. split; [exact Hok|exact HI].
 Qed.
 
 Lemma ok2_cons a m : ok2 (a :: m) = snd a && ok2 m.
@@ -1527,7 +1557,7 @@ Proof. induction l as [|k l IH]; intros s; cbn [fold_left]; [reflexivity|]. rewr
 Lemma handle_inv3 s o s' r : op_wf o = true -> Inv3 s -> handle s o = (s', r) -> Inv3 s'.
 Proof.
   intros Hwf HI H. pose proof HI as (Ho & Hnd & HK & Hact).
-  destruct o as [id inc|v order|sid v|id|id L ie|id es L rst|id h d es|id rst| |a| | |lasts]; cbn [handle] in H.
+  destruct o as [id inc|v order|sid v|id|id L ie|id es L rst|id h d es|id rst| |a| | |lasts|id L rst]; cbn [handle] in H.
   - destruct (id =? 0); [inversion H; subst; apply mk_inv3; cbn; auto|].
     destruct (aget id (estd s)) as [str|] eqn:Eg; [|inversion H; subst; exact HI].
     pose proof (forall_K_get _ _ _ _ HK Eg) as [Hb Hw].
@@ -1610,6 +1640,7 @@ Proof.
   - eapply processData_inv3; eauto.
   - inversion H; subst; exact HI.
   - inversion H; subst; exact HI.
+  - destruct (aget id (estd s)); [|destruct (side s =? 0)]; inversion H; subst; exact HI.
 Qed.
 
 Lemma init_inv3 sd : Inv3 (init sd).
@@ -1747,7 +1778,7 @@ Qed.
 Lemma handle_hd s o s' r : HDs s -> handle s o = (s', r) -> HDs s'.
 Proof.
   unfold HDs. intros H E.
-  destruct o as [id inc|v order|sid v|id|id L ie|id es L rst|id h d es|id rst| |a| | |lasts]; cbn [handle] in E.
+  destruct o as [id inc|v order|sid v|id|id L ie|id es L rst|id h d es|id rst| |a| | |lasts|id L rst]; cbn [handle] in E.
   - destruct (id =? 0); [inversion E; subst; exact H|].
     destruct (aget id (estd s)) as [str|] eqn:Eg; [|inversion E; subst; exact H].
     pose proof (forall_get HD _ _ _ H Eg) as [Hd1 Hd2].
@@ -1784,6 +1815,7 @@ Proof.
   - eapply processData_hd; eauto.
   - inversion E; subst; exact H.
   - inversion E; subst; exact H.
+  - destruct (aget id (estd s)); [|destruct (side s =? 0)]; inversion E; subst; exact H.
 Qed.
 
 (* ---------- clauses 22 / 23 on model traces ---------- *)
@@ -1989,7 +2021,7 @@ Lemma act_char s o : serving s o = false ->
 Proof.
   intros Hns. assert (Hsame : forall s0 : state, act s0 = act s -> exists x, act s0 = act s ++ x)
     by (intros s0 ->; exists []; rewrite app_nil_r; reflexivity).
-  destruct o as [id inc|v order|sid v|id|id L ie|id es L rst|id h d es|id rst| |a| | |lasts]; cbn [handle].
+  destruct o as [id inc|v order|sid v|id|id L ie|id es L rst|id h d es|id rst| |a| | |lasts|id L rst]; cbn [handle].
   - left. destruct (id =? 0); [apply Hsame; reflexivity|]. destruct (aget id (estd s)); [|apply Hsame; reflexivity].
     destruct (_ && _); cbn; [eauto|apply Hsame; reflexivity].
   - left. cbn [fst]. destruct (oiws s <? v); [|apply Hsame; reflexivity].
@@ -2012,6 +2044,7 @@ Proof.
     destruct (Z.eqb_spec (sq s) 0); [left; assumption|]. cbn in Hns. destruct (act s); [right; reflexivity|discriminate].
   - left. apply Hsame; reflexivity.
   - left. apply Hsame; reflexivity.
+  - left. destruct (aget id (estd s)); [|destruct (side s =? 0)]; apply Hsame; reflexivity.
 Qed.
 
 Lemma step_other s o id : serving s o = false -> closes id o = false -> In id (act s) ->
